@@ -20,7 +20,9 @@ import (
 
 type SeqChunk struct {
 	Name string
-	Gen  func(env *SeqEnv)
+	// NoPristine marks chunks that depend on the virtual clock and are therefore only run on the instrumented copy.
+	NoPristine bool
+	Gen        func(env *SeqEnv)
 }
 
 type SeqEnv struct {
